@@ -35,3 +35,6 @@ package types
 //@ trusted
 //@ modifies staking.*, bank.bal
 //@ ensures [only_pool_accounts_touched] forall a addr :: a != module("bonded_tokens_pool") && a != module("not_bonded_tokens_pool") ==> bank.bal[a] == old(bank.bal[a])
+
+//@ func (sk StakingKeeper).UnbondingTime(ctx) (d, err)
+//@ trusted
